@@ -517,6 +517,190 @@ def run_fork_case(case):
             shutil.rmtree(path, ignore_errors=True)
 
 
+# ---------------- process TREES: real forks of processes that already hold metric objects ----------------
+def _metric_op(metrics, catalog, op):
+    kind = op[0]
+
+    def tgt():
+        obj = metrics[op[2]]
+        return obj.labels(*op[3]) if op[3] else obj
+    if kind == 'new':
+        metrics[op[2]] = make_metric(catalog[op[2]])
+    elif kind == 'child':
+        tgt()
+    elif kind == 'inc':
+        tgt().inc(op[4])
+    elif kind == 'dec':
+        tgt().dec(op[4])
+    elif kind == 'set':
+        CLOCK[0] = op[5]
+        tgt().set(op[4])
+    elif kind == 'settime':
+        CLOCK[0] = op[4]
+        tgt().set_to_current_time()
+    elif kind == 'obs':
+        tgt().observe(op[4])
+    else:
+        raise ValueError('unknown op %r' % (op,))
+
+
+class _Tree:
+    """One process of the tree.  It executes the metric operations addressed to it, forks workers of its own (the new
+    process inherits the metric objects, the value closure and the open mappings, as after any os.fork()) and relays the
+    messages addressed to its descendants, one at a time, so that the history order is the real-time order."""
+
+    def __init__(self, metrics, catalog):
+        self.metrics, self.catalog = metrics, catalog
+        self.kids = {}          # worker id -> (pid, write fd, reply file)
+
+    def ask(self, w, msg):
+        _pid, wfd, rf = self.kids[w]
+        os.write(wfd, (json.dumps(msg) + '\n').encode())
+        line = rf.readline()
+        if not line:
+            return {'exc': 'WorkerError', 'msg': 'worker %r ended without answering %r' % (w, msg)}
+        return json.loads(line)
+
+    def handle(self, msg):
+        kind = msg[0]
+        if kind == 'to':
+            if not msg[1]:
+                return self.handle(msg[2])
+            return self.ask(msg[1][0], ['to', msg[1][1:], msg[2]])
+        if kind == 'fork':
+            return self.fork(msg[1])
+        if kind == 'reap':
+            return self.reap(msg[1])
+        try:
+            _metric_op(self.metrics, self.catalog, msg)
+            return {}
+        except Exception as e:
+            return {'exc': type(e).__name__, 'msg': str(e)[:200]}
+
+    def fork(self, w):
+        r, wr = os.pipe()           # parent -> child
+        ar, aw = os.pipe()          # child -> parent
+        sys.stdout.flush()
+        pid = os.fork()
+        if pid == 0:
+            try:
+                os.close(wr)
+                os.close(ar)
+                for _p, kw, krf in self.kids.values():      # the parent's ends of its other workers' pipes
+                    os.close(kw)
+                    krf.close()
+                me = _Tree(dict(self.metrics), self.catalog)
+                me.serve(r, aw)
+            finally:
+                os._exit(0)
+        os.close(r)
+        os.close(aw)
+        self.kids[w] = (pid, wr, os.fdopen(ar, 'r'))
+        return {'pid': pid}
+
+    def serve(self, rfd, wfd):
+        rf = os.fdopen(rfd, 'r')
+        try:
+            while True:
+                line = rf.readline()
+                if not line:
+                    break
+                msg = json.loads(line)
+                if msg[0] == 'exit':
+                    break
+                try:
+                    rep = self.handle(msg)
+                except BaseException as e:      # noqa
+                    rep = {'exc': 'WorkerError', 'msg': type(e).__name__ + ': ' + str(e)[:200]}
+                os.write(wfd, (json.dumps(rep) + '\n').encode())
+        finally:
+            self.reap_all()
+
+    def reap(self, w):
+        pid, wfd, rf = self.kids.pop(w)
+        try:
+            os.write(wfd, b'["exit"]\n')
+        except OSError:
+            pass
+        os.close(wfd)
+        os.waitpid(pid, 0)
+        rf.close()
+        return {'pid': pid}
+
+    def reap_all(self):
+        for w in list(self.kids):
+            try:
+                self.reap(w)
+            except OSError:
+                pass
+
+
+def run_tree_case(case):
+    """The history is executed by a TREE of real processes (identities = os.getpid()): worker 0 is this process with a
+    fresh value closure, ['fork', parent, w] makes worker `parent` fork worker w, which inherits the parent's metric
+    objects (and the open mappings of the parent's files) and performs its first metric operation whenever the history
+    says so.  ['dead', w] ends worker w (and whatever it forked) and calls mark_process_dead(its pid)."""
+    path = tempfile.mkdtemp(dir=BASE)
+    os.environ['PROMETHEUS_MULTIPROC_DIR'] = path
+    saved_cls = values.ValueClass
+    root_pid = os.getpid()
+    obs = []
+    catalog = {d['id']: d for d in case['metrics']}
+    root = None
+    try:
+        values.ValueClass = MultiProcessValue()          # os.getpid; nothing of an earlier case in its value list
+        registry = CollectorRegistry()
+        MultiProcessCollector(registry)
+        root = _Tree({}, catalog)
+        route = {0: []}             # worker -> the workers below the root on the way to it
+        pids = {}
+        for op in case['ops']:
+            kind = op[0]
+            o = {}
+            if kind == 'spawn':
+                o = {'pid': root_pid}
+                pids[op[1]] = root_pid
+            elif kind == 'fork':
+                o = root.handle(['to', route[op[1]], ['fork', op[2]]])
+                route[op[2]] = route[op[1]] + [op[2]]
+                pids[op[2]] = o.get('pid')
+            elif kind == 'dead':
+                w = op[1]
+                before = sorted(_ORIG_LISTDIR(path))
+                r = root.handle(['to', route[w][:-1], ['reap', w]])
+                for w2 in [x for x in route if route[x][:len(route[w])] == route[w]]:
+                    del route[w2]
+                if 'exc' in r:
+                    o = r
+                else:
+                    mark_process_dead(pids[w])
+                    o = {'before': before, 'after': sorted(_ORIG_LISTDIR(path)), 'pid': pids[w]}
+            elif kind == 'collect':
+                listing = _ORIG_GLOB(os.path.join(path, '*.db'))
+                _files, before = read_dir(path, listing)
+                del READ_LOG[:]
+                fams = fams_out(registry.collect())
+                order = observed_order(path, listing)
+                by_name = dict(before)
+                o = {'files': [[os.path.basename(f), by_name[os.path.basename(f)]] for f in order], 'fams': fams}
+            elif kind == 'merge':
+                files = _ORIG_GLOB(os.path.join(path, '*.db'))
+                random.Random(op[1]).shuffle(files)
+                files, content = read_dir(path, files)
+                o = {'files': content, 'fams': fams_out(MultiProcessCollector.merge(files, accumulate=True))}
+            else:
+                o = root.handle(['to', route[op[1]], op])
+            obs.append(o)
+        return obs
+    finally:
+        if os.getpid() == root_pid:
+            if root is not None:
+                root.reap_all()
+            values.ValueClass = saved_cls
+            os.environ['PROMETHEUS_MULTIPROC_DIR'] = BASE
+            shutil.rmtree(path, ignore_errors=True)
+
+
 def main():
     for line in sys.stdin:
         line = line.strip()
@@ -526,6 +710,8 @@ def main():
         try:
             if req.get('fork') == 'workers':
                 rep = {'ok': run_real_case(req['case'])}
+            elif req.get('fork') == 'tree':
+                rep = {'ok': run_tree_case(req['case'])}
             elif req.get('fork'):
                 rep = {'ok': run_fork_case(req['case'])}
             else:
